@@ -8,22 +8,84 @@ operation's edges are drawn, so that new spans start inside, end inside, exactly
 abut existing spans (the case split of make_span).
 """
 import hashlib
+import os
+import re
 
-ASCII = list(range(0x41, 0x5b)) + list(range(0x61, 0x7b)) + [0x20, 0x7e, 0x30, 0x39]
-LATIN = [0xe9, 0xa1, 0xff, 0xc0]
-COMB = [0x300, 0x301, 0x36f]
-WIDE = [0xff21, 0xff22, 0xff01, 0xff60]
-BAD = [0x01, 0x1f, 0x7f, 0x85, 0x9f]        # C0 / DEL / C1: tickit_utf8_ncount rejects the string
+from tables import width as _width
+
+REPO = os.environ.get("VERIF_REPO", "/repo")
+
+# East Asian wide ranges hard-coded in mk_wcwidth (src/unicode.h), as Utf8Spec.wide_ranges
+WIDE_RANGES = [(0x1100, 0x115f), (0x2329, 0x232a), (0x2e80, 0x303e), (0x3040, 0xa4cf), (0xac00, 0xd7a3),
+               (0xf900, 0xfaff), (0xfe10, 0xfe19), (0xfe30, 0xfe6f), (0xff00, 0xff60), (0xffe0, 0xffe6),
+               (0x20000, 0x2fffd), (0x30000, 0x3fffd)]
+
+
+def _load_tables():
+    """the library's own width tables, parsed from the CURRENT sources with the translator's parser"""
+    uh = open(os.path.join(REPO, "src", "unicode.h")).read()
+    m = re.search(r"static\s+const\s+struct\s+interval\s+combining\s*\[\s*\]\s*=\s*\{(.*?)\}\s*;", uh, re.S)
+    combining = _width.parse_pairs(m.group(1), "combining[]")
+    fw_txt, _ = _width.fullwidth_text(REPO)
+    return combining, _width.parse_pairs(fw_txt, "fullwidth.inc")
+
+
+COMBINING, FULLWIDTH = _load_tables()
+
+
+def _in(c, table):
+    return any(a <= c <= b for a, b in table)
+
+
+_cpw_cache = {}
 
 
 def cpw(c):
-    if 0x20 <= c <= 0x7e or 0xa1 <= c <= 0xff or 0x2500 <= c <= 0x257f:
-        return 1
-    if 0x300 <= c <= 0x36f:
-        return 0
-    if 0xff01 <= c <= 0xff60:
-        return 2
-    return -1
+    """tickit_utf8_wcwidth as RBDefs.cpw: -1 for controls / DEL / code points outside 1..0x1FFFFF"""
+    w = _cpw_cache.get(c)
+    if w is None:
+        if c <= 0 or c >= 0x200000 or c < 0x20 or 0x7f <= c < 0xa0:
+            w = -1
+        elif _in(c, FULLWIDTH):
+            w = 2
+        elif _in(c, COMBINING):
+            w = 0
+        elif _in(c, WIDE_RANGES):
+            w = 2
+        else:
+            w = 1
+        _cpw_cache[c] = w
+    return w
+
+
+ASCII = list(range(0x41, 0x5b)) + list(range(0x61, 0x7b)) + [0x20, 0x7e, 0x30, 0x39]
+LATIN = [0xe9, 0xa1, 0xff, 0xc0, 0xa0, 0xad]          # incl. NBSP and SOFT HYPHEN (width 1)
+COMB = [0x300, 0x301, 0x36f]
+WIDE = [0xff21, 0xff22, 0xff01, 0xff60]
+BAD = [0x01, 0x1f, 0x7f, 0x80, 0x85, 0x9f]  # C0 / DEL / C1: tickit_utf8_ncount rejects the string
+
+
+def _boundaries():
+    """every end of every interval of the three tables and its outer neighbour, by width"""
+    pools = {0: set(), 1: set(), 2: set()}
+    for table in (COMBINING, FULLWIDTH, WIDE_RANGES):
+        for a, b in table:
+            for c in (a - 1, a, b, b + 1):
+                w = cpw(c)
+                if w >= 0:
+                    pools[w].add(c)
+    # more of every encoded length and class: Hangul medials / finals (0), ZWSP (0), Hangul initial and
+    # syllable (2), CJK (2), emoji and plane-2 ideograph (4 bytes, 2), 4-byte narrow, the last code
+    # point four bytes encode, surrogates and noncharacters as the decoder sees them (1)
+    for c in (0x1160, 0x11a8, 0x11ff, 0x200b, 0x1100, 0xac00, 0x4e00, 0x30ce, 0x1f3e0, 0x20000, 0x3fffd,
+              0x10000, 0x1d11e, 0x10ffff, 0x1fffff, 0xd800, 0xdfff, 0xfffd, 0xffff, 0x7ff, 0x800, 0x2500, 0x257f):
+        w = cpw(c)
+        if w >= 0:
+            pools[w].add(c)
+    return {w: sorted(v) for w, v in pools.items()}
+
+
+EXOTIC = _boundaries()
 
 
 def text_tok(cps):
@@ -36,14 +98,16 @@ def rand_text(rnd, maxcols, mix="any"):
     want = rnd.randint(1, max(1, maxcols))
     while w < want:
         r = rnd.random()
-        if mix == "ascii" or r < 0.55:
+        if mix == "ascii" or r < 0.5:
             c = rnd.choice(ASCII)
-        elif r < 0.65:
+        elif r < 0.58:
             c = rnd.choice(LATIN)
-        elif r < 0.83:
+        elif r < 0.70:
             c = rnd.choice(WIDE)
-        else:
+        elif r < 0.80:
             c = rnd.choice(COMB)
+        else:
+            c = rnd.choice(EXOTIC[rnd.choice([0, 1, 2, 2])])
         if w + cpw(c) > maxcols and cpw(c) > 0:
             if w + 1 <= maxcols:
                 c = rnd.choice(ASCII)
@@ -52,23 +116,44 @@ def rand_text(rnd, maxcols, mix="any"):
         cps.append(c)
         w += cpw(c)
     if cps and rnd.random() < 0.25:
-        cps.append(rnd.choice(COMB))
+        cps.append(rnd.choice(COMB) if rnd.random() < 0.6 else rnd.choice(EXOTIC[0]))
     return cps
 
 
+def _rgb(rnd):
+    return "#%02x%02x%02x" % tuple(rnd.choice([0, 1, 0x7f, 0x80, 0xfe, 0xff, rnd.randint(0, 255)]) for _ in range(3))
+
+
 def rand_pen(rnd):
+    """all ten attributes over their representable values; colours with or without an RGB8 secondary"""
     r = rnd.random()
     if r < 0.08:
         return "-"
     s = ""
     if rnd.random() < 0.6:
-        s += "f%d" % rnd.choice([1, 2, 3, 7, 15, 200, -1])
+        s += "f%d" % rnd.choice([1, 2, 3, 7, 15, 200, 255, 0, -1])
+        if rnd.random() < 0.3:
+            s += _rgb(rnd)
     if rnd.random() < 0.35:
-        s += "b%d" % rnd.choice([0, 4, 5, 100, -1])
+        s += "b%d" % rnd.choice([0, 4, 5, 100, 255, -1])
+        if rnd.random() < 0.3:
+            s += _rgb(rnd)
     if rnd.random() < 0.3:
         s += "B%d" % rnd.choice([0, 1])
     if rnd.random() < 0.2:
         s += "u%d" % rnd.choice([0, 1, 2, 3])
+    if rnd.random() < 0.12:
+        s += "i%d" % rnd.choice([0, 1])
+    if rnd.random() < 0.12:
+        s += "r%d" % rnd.choice([0, 1])
+    if rnd.random() < 0.1:
+        s += "s%d" % rnd.choice([0, 1])
+    if rnd.random() < 0.1:
+        s += "a%d" % rnd.choice([-1, 0, 1, 9, 15])
+    if rnd.random() < 0.1:
+        s += "k%d" % rnd.choice([0, 1])
+    if rnd.random() < 0.1:
+        s += "z%d" % rnd.choice([0, 1, 2, 3])
     return s or "-"
 
 
@@ -162,7 +247,7 @@ def gen_program(rnd, lines, cols, nops, *, malformed=False, maxdepth=4, dump_pro
             ops.append("ska %d %d %d" % (l - sh.xl, c - sh.xc, w)); mark(c, w); note("ska")
         elif r < 0.45:
             c = col(); l = line()
-            cp = rnd.choice(ASCII + LATIN) if rnd.random() < 0.85 else rnd.choice(WIDE + COMB + (BAD if malformed else []))
+            cp = rnd.choice(ASCII + LATIN) if rnd.random() < 0.8 else rnd.choice(WIDE + COMB + EXOTIC[rnd.choice([0, 1, 2])] + (BAD if malformed else []))
             ops.append("cha %d %d %x" % (l - sh.xl, c - sh.xc, cp)); mark(c, max(1, cpw(cp))); note("cha")
         elif r < 0.51:
             c, w = span(); l = line()
@@ -203,7 +288,7 @@ def gen_program(rnd, lines, cols, nops, *, malformed=False, maxdepth=4, dump_pro
             elif k < 0.85:
                 ops.append("skt %d" % (col() - sh.xc)); note("skt")
             else:
-                ops.append("ch %x" % (rnd.choice(ASCII + LATIN) if rnd.random() < 0.8 else rnd.choice(WIDE + COMB + (BAD if malformed else [])))); note("ch")
+                ops.append("ch %x" % (rnd.choice(ASCII + LATIN) if rnd.random() < 0.75 else rnd.choice(WIDE + COMB + EXOTIC[rnd.choice([0, 1, 2])] + (BAD if malformed else [])))); note("ch")
         elif r < 0.86:
             if len(sh.stack) < maxdepth:
                 if rnd.random() < 0.65:
